@@ -103,6 +103,28 @@ func mwu(c *Case, x1, x2 []float64, alt int) (call, error) {
 	if !bitsEqual(buf, before) {
 		return call{}, fmt.Errorf("arguments (or the memory behind them) modified by the call (alt=%d): x1 %v -> %v, x2 %v -> %v, whole backing array %v -> %v", alt, x1, a1, x2, a2, before, buf)
 	}
+	// When one sample happens to be a prefix of the other (values equal one for one), hand them
+	// over once more as data[:k] and data - two slices with the SAME first element and different
+	// lengths - and require the same answer.
+	short, long, swapped := x1, x2, false
+	if len(short) > len(long) {
+		short, long, swapped = x2, x1, true
+	}
+	if len(short) > 0 && len(short) < len(long) && bitsEqual(short, long[:len(short)]) {
+		data := append(make([]float64, 0, 2*len(long)+3), long...)
+		keep := append([]float64(nil), data...)
+		a, b := data[:len(short)], data
+		if swapped {
+			a, b = b, a
+		}
+		r2, err2 := stats.MannWhitneyUTest(a, b, stats.LocationHypothesis(alt))
+		if !bitsEqual(data, keep) {
+			return call{}, fmt.Errorf("arguments modified by the call on a prefix and its whole slice (alt=%d)", alt)
+		}
+		if (err2 == nil) != (err == nil) || (err == nil && (r2.U != r.U || !samePval(r2.P, r.P) || r2.N1 != r.N1 || r2.N2 != r.N2)) {
+			return call{}, fmt.Errorf("alt=%d: the call on data[:%d] and data[:%d] (same first element) gives %+v, %v; on separate slices %+v, %v", alt, len(a), len(b), r2, err2, r, err)
+		}
+	}
 	return call{r, err}, nil
 }
 
@@ -467,7 +489,25 @@ func maxOf(a, b int) int {
 func TestRandom(t *testing.T) {
 	ev.Rule(rule)
 	ev.Rapid(t, "c03-random", 2500, 160000, func(rt *rapid.T) {
-		checkLaws.Run(rt, drawCase(rt))
+		c := drawCase(rt)
+		if rapid.IntRange(0, 5).Draw(rt, "prefix") == 0 && len(c.L1) > 0 && len(c.L2) > 0 {
+			// one sample is a prefix of the other (e.g. the first k observations against all)
+			a, b := c.L1, c.L2
+			if len(a) > len(b) {
+				a, b = b, a
+			}
+			if len(a) == len(b) && len(a) > 1 {
+				a = a[:len(a)-1]
+			}
+			copy(a, b[:len(a)])
+			if len(c.L1) <= len(c.L2) {
+				c.L1, c.L2 = a, b
+			} else {
+				c.L1, c.L2 = b, a
+			}
+			c.Perm1, c.Perm2 = gen.Perm(rt, len(c.L1), "pp1"), gen.Perm(rt, len(c.L2), "pp2")
+		}
+		checkLaws.Run(rt, c)
 	})
 }
 
